@@ -88,11 +88,12 @@ theorem terminal_when_drained (id : PayId) (s : State) (ops : List Op) (h : Inst
         nSent id (run s ops).2 + nFailed id (run s ops).2 = 1) ∧
     (∀ r, get (run s ops).1.cur id ≠ .abandoned [] r) ∧
     (∀ ps t, get (run s ops).1.cur id = .fulfilled ps t → nSent id (run s ops).2 = 1) ∧
-    (∀ (st : PState) (p : PartId) (auto perm : Bool), (∃ ps, st = .retryable ps ∨ ∃ r, st = .abandoned ps r) →
-        p ∈ st.parts → removePart p st.parts = [] → ((∃ ps, st = .retryable ps) → ¬(auto = true ∧ perm = false)) →
-        (stepP id st (.fail p auto perm)).1 = .absent ∧ nFailed id (stepP id st (.fail p auto perm)).2.evs = 1) ∧
-    (stepP id (.retryable []) (.sweep false)).1 = .absent ∧
-      nFailed id (stepP id (.retryable []) (.sweep false)).2.evs = 1 := by
+    (∀ (amt : Amt) (st : PState) (p : PartId) (auto perm : Bool),
+        (∃ ps, (∃ pe to, st = .retryable ps pe to) ∨ ∃ r, st = .abandoned ps r) →
+        p ∈ st.parts → removePart p st.parts = [] → ((∃ ps pe to, st = .retryable ps pe to) → ¬(auto = true ∧ perm = false)) →
+        (stepP amt id st (.fail p auto perm)).1 = .absent ∧ nFailed id (stepP amt id st (.fail p auto perm)).2.evs = 1) ∧
+    (∀ (amt : Amt) (pe to : Nat), (stepP amt id (.retryable [] pe to) (.sweep false)).1 = .absent ∧
+      nFailed id (stepP amt id (.retryable [] pe to) (.sweep false)).2.evs = 1) := by
   have hc := instance_cases id s ops h
   simp only at hc
   refine ⟨?_, ?_, ?_, ?_, ?_⟩
@@ -101,7 +102,7 @@ theorem terminal_when_drained (id : PayId) (s : State) (ops : List Op) (h : Inst
     · exact (h1.2.1 hs).elim
     · exact h1.2.2.1
     · obtain ⟨⟨t, ht⟩, _⟩ := h1; rw [ht] at habs; cases habs
-    · obtain ⟨⟨t, ht⟩, _⟩ := h1; rw [ht] at habs; cases habs
+    · obtain ⟨⟨t, pe, to, ht⟩, _⟩ := h1; rw [ht] at habs; cases habs
     · obtain ⟨⟨ps, r, ht, _⟩, _⟩ := h1; rw [ht] at habs; cases habs
     · obtain ⟨⟨ps, t, ht⟩, _⟩ := h1; rw [ht] at habs; cases habs
   · intro r hr
@@ -109,7 +110,7 @@ theorem terminal_when_drained (id : PayId) (s : State) (ops : List Op) (h : Inst
     · rw [h1.1] at hr; cases hr
     · rw [h1.1] at hr; cases hr
     · obtain ⟨⟨t, ht⟩, _⟩ := h1; rw [ht] at hr; cases hr
-    · obtain ⟨⟨t, ht⟩, _⟩ := h1; rw [ht] at hr; cases hr
+    · obtain ⟨⟨t, pe, to, ht⟩, _⟩ := h1; rw [ht] at hr; cases hr
     · obtain ⟨⟨ps, r', ht, hne⟩, _⟩ := h1; rw [ht] at hr; cases hr; exact hne rfl
     · obtain ⟨⟨ps, t, ht⟩, _⟩ := h1; rw [ht] at hr; cases hr
   · intro ps t hf
@@ -117,12 +118,12 @@ theorem terminal_when_drained (id : PayId) (s : State) (ops : List Op) (h : Inst
     · rw [h1.1] at hf; cases hf
     · rw [h1.1] at hf; cases hf
     · obtain ⟨⟨t, ht⟩, _⟩ := h1; rw [ht] at hf; cases hf
-    · obtain ⟨⟨t, ht⟩, _⟩ := h1; rw [ht] at hf; cases hf
+    · obtain ⟨⟨t, pe, to, ht⟩, _⟩ := h1; rw [ht] at hf; cases hf
     · obtain ⟨⟨ps, r', ht, hne⟩, _⟩ := h1; rw [ht] at hf; cases hf
     · exact h1.2.1
-  · intro st p auto perm hst hp hrm hnr
-    obtain ⟨ps, rfl | ⟨r, rfl⟩⟩ := hst
-    · have hnr' := hnr ⟨ps, rfl⟩
+  · intro amt st p auto perm hst hp hrm hnr
+    obtain ⟨ps, ⟨pe, to, rfl⟩ | ⟨r, rfl⟩⟩ := hst
+    · have hnr' := hnr ⟨ps, pe, to, rfl⟩
       simp only [PState.parts] at hp hrm
       have hcont : ps.contains p = true := by simpa using hp
       simp only [stepP, hcont, abandonNow, hrm]
@@ -130,14 +131,14 @@ theorem terminal_when_drained (id : PayId) (s : State) (ops : List Op) (h : Inst
     · simp only [PState.parts] at hp hrm
       have hcont : ps.contains p = true := by simpa using hp
       simp [stepP, hp, abandonNow, hrm, nFailed, isFailedFor]
-  · simp [stepP, nFailed, isFailedFor]
+  · intro amt pe to; simp [stepP, nFailed, isFailedFor]
 
 -- a two-part payment whose parts both fail, the second without a retry left: drained ⇒ PaymentFailed, entry gone
 example : (run init [.send 1 [1, 2], .fail 1 1 true false, .fail 1 2 false false]).2 =
       [.pathFailed 1 1, .pathFailed 1 2, .failed 1 .retriesExhausted] ∧
     get (run init [.send 1 [1, 2], .fail 1 1 true false, .fail 1 2 false false]).1.cur 1 = .absent := by decide
 -- a drained payment that may still retry stays Retryable with no part until check_retry_payments gives up
-example : get (run init [.send 1 [1], .fail 1 1 true false]).1.cur 1 = .retryable [] ∧
+example : get (run init [.send 1 [1], .fail 1 1 true false]).1.cur 1 = .retryable [] 0 0 ∧
     (run init [.send 1 [1], .fail 1 1 true false, .sweep []]).2 = [.pathFailed 1 1, .failed 1 .retriesExhausted] := by
   decide
 
@@ -148,7 +149,7 @@ theorem duplicate_send_refused (s : State) (id : PayId) (parts : List PartId) (h
     (∀ k, get (step s (.send id parts)).1.cur k = get s.cur k) ∧
     (step s (.send id parts)).1.queue = s.queue ∧ (step s (.send id parts)).1.snapCur = s.snapCur ∧
     (step s (.send id parts)).1.snapQueue = s.snapQueue := by
-  have hs := stepP_send_present id (get s.cur id) parts h
+  have hs := stepP_send_present (amt := s.amt) id (get s.cur id) parts h
   refine ⟨by simp [step, one, hs], ?_, by simp [step, one, hs], rfl, rfl⟩
   intro k
   by_cases hk : k = id
@@ -156,7 +157,7 @@ theorem duplicate_send_refused (s : State) (id : PayId) (parts : List PartId) (h
   · simp [step, one, hs, get_set_ne _ _ _ _ hk]
 
 example : (step (step init (.send 7 [1])).1 (.send 7 [2, 3])).2.dup = true ∧
-    get (step (step init (.send 7 [1])).1 (.send 7 [2, 3])).1.cur 7 = .retryable [1] := by decide
+    get (step (step init (.send 7 [1])).1 (.send 7 [2, 3])).1.cur 7 = .retryable [1] 0 0 := by decide
 
 /-- Duplicate resolutions are idempotent:
     (1) a fail for a part the entry no longer holds changes nothing and pushes nothing;
@@ -172,21 +173,21 @@ theorem duplicates_idempotent (s : State) (id : PayId) (p : PartId) :
   have key : ∀ (s : State) (pop : POp), pop.isResolution = true →
       (one (one s id pop).1 id pop).2.evs = [] ∧ ∀ k, get (one (one s id pop).1 id pop).1.cur k = get (one s id pop).1.cur k := by
     intro s pop hres
-    have hr := stepP_repeat id (get s.cur id) pop hres
-    have hg : get (one s id pop).1.cur id = (stepP id (get s.cur id) pop).1 := one_get_self s id pop
+    have hr := stepP_repeat (amt := s.amt) id (get s.cur id) pop hres
+    have hg : get (one s id pop).1.cur id = (stepP s.amt id (get s.cur id) pop).1 := one_get_self s id pop
     refine ⟨by rw [one_evs_self, hg]; exact hr.2, fun k => ?_⟩
     by_cases hk : k = id
     · subst hk; rw [one_get_self, hg]; exact hr.1
     · rw [one_get_ne _ _ _ _ hk]
   refine ⟨?_, ?_, ?_⟩
   · intro a pm hp hpre
-    have hs := stepP_fail_absent_part id (get s.cur id) p a pm hp hpre
+    have hs := stepP_fail_absent_part (amt := s.amt) id (get s.cur id) p a pm hp hpre
     refine ⟨by simp [step, one, hs], fun k => ?_⟩
     by_cases hk : k = id
     · subst hk; simp [step, one, hs, get_set_self]
     · simp [step, one, get_set_ne _ _ _ _ hk]
   · intro oc hp hst
-    have hs := stepP_claim_absent_part id (get s.cur id) p oc hp hst
+    have hs := stepP_claim_absent_part (amt := s.amt) id (get s.cur id) p oc hp hst
     refine ⟨by simp [step, one, hs], fun k => ?_⟩
     by_cases hk : k = id
     · subst hk; simp [step, one, hs, get_set_self]
@@ -253,5 +254,112 @@ example : (run init ([.send 1 [1, 2], .persist, .claim 1 1 false, .fail 1 2 fals
 example : (run init ([.persist, .send 1 [1, 2], .claim 1 1 true, .handle] ++
       restartOps [(1, 2, .failed false false)])).2 = [.sent 1, .pathOk 1 1, .pathFailed 1 2, .failed 1 .retriesExhausted] := by
   decide
+
+/-! ## Send results: which HTLCs of a payment are in flight
+
+    One send / retry call (`sendR` / `retryR`) carries an ARBITRARY per-path result vector: `ok`, `mip`
+    (Err(MonitorUpdateInProgress): the HTLC is committed to the channel, it goes out when the monitor update
+    completes), `err` (any other error: never sent), `bad` (the path fails pay_route_internal's parameter check:
+    nothing of the call is sent).  What `pay_route_internal` / `handle_pay_route_err` /
+    `push_path_failed_evs_and_scids` / `PendingOutboundPayment::{insert, remove}` make of it is
+    `Generated/OutboundSend.lean`, re-translated from outbound_payment.rs on every run.
+    `flight id s fl ops` is the GROUND TRUTH kept by an observer of the two interfaces only (Model/OutboundPay.lean,
+    `flightP`): a part enters when it was handed to `send_payment_along_path` and the answer was `Ok` or
+    `MonitorUpdateInProgress`, and leaves when `fail_htlc` / `finalize_claims` / `claim_htlc(from_onchain)` resolves
+    it.  `Tracks amt st fl`: the entry's `session_privs` are exactly `fl` (no part twice) and, while Retryable, its
+    `pending_amt_msat` is the sum of their amounts.  `NoRestart ops`: no `restore`, no start-up `insert`. -/
+
+/-- The link between the translated source and the ground truth, for EVERY result vector that passed the parameter
+    checks: `pay_route_internal` returns `Ok(())` only if every HTLC is in flight; otherwise the match arm of
+    `handle_pay_route_err` selected by the returned `PaymentSendFailure` removes the session priv of a path iff its
+    HTLC is NOT in flight — in particular a `MonitorUpdateInProgress` path is never removed. -/
+theorem send_results_classified (amt : Amt) (paths : List (PartId × PathIn)) (hnb : ∀ x ∈ paths, x.2 ≠ .bad) :
+    (OutboundSendGen.sendKindOf (flagsOf amt (sendResults paths)) = .sentAll → ∀ x ∈ paths, x.2.inFlight = true) ∧
+    (OutboundSendGen.sendKindOf (flagsOf amt (sendResults paths)) ≠ .sentAll →
+      ∀ x ∈ paths, OutboundSendGen.handleRemoves (OutboundSendGen.sendKindOf (flagsOf amt (sendResults paths))) x.2.sendRes =
+        !x.2.inFlight) :=
+  classify_spec paths hnb
+
+-- the seeded trigger: one path paused behind a monitor update, one path refused: PartialFailure with retry
+-- parameters; the paused path's session priv stays, the refused one goes
+example : OutboundSendGen.sendKindOf (flagsOf (fun _ => 5) (sendResults [(1, .mip), (2, .err)])) = .partialRetry ∧
+    OutboundSendGen.handleRemoves .partialRetry PathIn.mip.sendRes = false ∧
+    OutboundSendGen.handleRemoves .partialRetry PathIn.err.sendRes = true := by decide
+
+/-- The set of in-flight parts tracked by the payment equals exactly the parts whose HTLC is actually in flight —
+    over ALL op lists without restart (any sends / retries with any per-path result vectors, resolutions in any
+    order, duplicates, abandons, sweeps, ticks, activity on other ids), from any state that tracks `fl` (`init`: `[]`). -/
+theorem in_flight_tracked (id : PayId) (s : State) (ops : List Op) (fl : List PartId) (hnr : NoRestart ops)
+    (h0 : Tracks s.amt (get s.cur id) fl) :
+    (get (run s ops).1.cur id).parts = flight id s fl ops ∧ (flight id s fl ops).Nodup :=
+  ⟨(tracks_run id ops s fl hnr h0).1, (tracks_run id ops s fl hnr h0).2.1⟩
+
+/-- While the payment is Retryable its pending amount (`pending_amt_msat`) equals the sum over the in-flight parts. -/
+theorem pending_amount_is_in_flight_sum (id : PayId) (s : State) (ops : List Op) (fl : List PartId) (hnr : NoRestart ops)
+    (h0 : Tracks s.amt (get s.cur id) fl) (ps : List PartId) (pe to : Nat)
+    (hst : get (run s ops).1.cur id = .retryable ps pe to) :
+    pe = sumAmt s.amt (flight id s fl ops) := by
+  have h := tracks_run id ops s fl hnr h0
+  rw [← h.1, hst]; exact h.2.2 ps pe to hst
+
+/-- Hence a retry issued by `check_retry_payments` asks the router for exactly the amount that is NOT in flight:
+    never is an in-flight amount sent again. -/
+theorem retry_requests_missing_amount (id : PayId) (s : State) (ops : List Op) (fl : List PartId) (hnr : NoRestart ops)
+    (h0 : Tracks s.amt (get s.cur id) fl) (ps : List PartId) (pe to : Nat)
+    (hst : get (run s ops).1.cur id = .retryable ps pe to) (hw : OutboundSendGen.wantsRetry pe to = true) :
+    OutboundSendGen.retryValue pe to + sumAmt s.amt (flight id s fl ops) = to := by
+  have := pending_amount_is_in_flight_sum id s ops fl hnr h0 ps pe to hst
+  unfold OutboundSendGen.wantsRetry at hw
+  unfold OutboundSendGen.retryValue
+  have hlt : pe < to := by simpa using hw
+  omega
+
+/-- `PaymentFailed` is emitted only when the in-flight set is empty: whichever op pushes it, afterwards no HTLC of the
+    payment is in flight and the entry is gone. -/
+theorem failed_only_when_nothing_in_flight (id : PayId) (s : State) (ops : List Op) (op : Op) (fl : List PartId)
+    (hwf : WF s) (hnr : NoRestart (ops ++ [op])) (h0 : Tracks s.amt (get s.cur id) fl)
+    (hf : nFailed id (step (run s ops).1 op).2.evs ≥ 1) :
+    flight id s fl (ops ++ [op]) = [] ∧ get (run s (ops ++ [op])).1.cur id = .absent := by
+  have hnr1 : NoRestart ops := fun o ho => hnr o (List.mem_append_left _ ho)
+  have hop := not_restart op (hnr op (by simp))
+  have ht := tracks_run id ops s fl hnr1 h0
+  rw [← run_amt ops s] at ht
+  obtain ⟨h1, h2⟩ := failed_global_step id (run s ops).1 op _ (wf_run ops s hwf) hop ht hf
+  rw [flight_append, run_append]
+  exact ⟨h2, h1⟩
+
+/-- An id that is no longer listed has no HTLC in flight (so re-using the id is safe). -/
+theorem dropped_only_when_nothing_in_flight (id : PayId) (s : State) (ops : List Op) (fl : List PartId)
+    (hnr : NoRestart ops) (h0 : Tracks s.amt (get s.cur id) fl) (habs : get (run s ops).1.cur id = .absent) :
+    flight id s fl ops = [] := by
+  have h := (tracks_run id ops s fl hnr h0).1
+  rw [habs] at h; exact h.symm
+
+/-- a state with amounts for the examples -/
+def s1000 : State := { amt := fun p => 1000 + p }
+
+-- MPP send, path 1 paused behind a monitor update, path 2 refused; the retry finds no route: the payment is
+-- Abandoned but NOT failed while HTLC 1 is in flight; its later failure is the terminal event
+example : Tracks s1000.amt (get s1000.cur 1) [] ∧
+    NoRestart [.sendR 1 [(1, .mip), (2, .err)] false, .abandon 1 .routeNotFound, .fail 1 1 false false] ∧
+    (run s1000 [.sendR 1 [(1, .mip), (2, .err)] false]).2 = [.pathFailed 1 2] ∧
+    get (run s1000 [.sendR 1 [(1, .mip), (2, .err)] false]).1.cur 1 = .retryable [1] 1001 2003 ∧
+    flight 1 s1000 [] [.sendR 1 [(1, .mip), (2, .err)] false] = [1] ∧
+    (run s1000 [.sendR 1 [(1, .mip), (2, .err)] false, .abandon 1 .routeNotFound]).2 = [.pathFailed 1 2] ∧
+    get (run s1000 [.sendR 1 [(1, .mip), (2, .err)] false, .abandon 1 .routeNotFound]).1.cur 1 = .abandoned [1] .routeNotFound ∧
+    (run s1000 [.sendR 1 [(1, .mip), (2, .err)] false, .abandon 1 .routeNotFound, .fail 1 1 false false]).2 =
+      [.pathFailed 1 2, .pathFailed 1 1, .failed 1 .routeNotFound] := by
+  refine ⟨tracks_nil_absent, by decide, by decide, by decide, by decide, by decide, by decide, by decide⟩
+
+-- every path refused: AllFailedResendSafe, nothing in flight, the retry re-sends the whole amount
+example : get (run s1000 [.sendR 1 [(1, .err), (2, .err)] false, .retryR 1 [(3, .ok), (4, .mip)] true false]).1.cur 1 =
+      .retryable [3, 4] 2007 2003 ∧
+    flight 1 s1000 [] [.sendR 1 [(1, .err), (2, .err)] false, .retryR 1 [(3, .ok), (4, .mip)] true false] = [3, 4] := by
+  decide
+
+-- a route refused by the parameter check: added, emptied, abandoned and dropped in one call
+example : (run s1000 [.sendR 1 [(1, .ok), (2, .bad)] false]).2 = [.pathFailed 1 2, .failed 1 .unexpectedError] ∧
+    get (run s1000 [.sendR 1 [(1, .ok), (2, .bad)] false]).1.cur 1 = .absent ∧
+    flight 1 s1000 [] [.sendR 1 [(1, .ok), (2, .bad)] false] = [] := by decide
 
 end Ldk.C03
